@@ -216,7 +216,9 @@ HandleRV(s, m, sticky0) ==
     LET s1 == IF ~m.pre /\ m.term > s.term THEN BecomeFollower(s, m.term, "rv")
               ELSE IF m.pre /\ m.term > s.term /\ "PrevoteBumpsTerm" \in W THEN BecomeFollower(s, m.term, "rv")
               ELSE s IN
-    IF ~m.pre /\ s1.vote # Nil /\ s1.vote # m.from /\ "VoteNoVotedFor" \notin W THEN reject(s1)
+    \* (weakening PrevoteRefusedIfVoted: also a PREVOTE that asks about the voter's own term is
+    \* refused when the voter has voted for somebody else in it - the asker never learns the term)
+    IF (~m.pre \/ ("PrevoteRefusedIfVoted" \in W /\ m.term = s1.term)) /\ s1.vote # Nil /\ s1.vote # m.from /\ "VoteNoVotedFor" \notin W THEN reject(s1)
     ELSE IF ~LogOk(s1, m) THEN reject(s1)
     ELSE [s |-> IF m.pre THEN s1 ELSE Persist([s1 EXCEPT !.vote = m.from], "grant"),
           reply |-> [term |-> s1.term, ok |-> TRUE]]
